@@ -185,6 +185,16 @@ def sizesOK (inp : Input) : Bool :=
   (inp.probes.all fun p => (reported p).all fun kv => decide (0 ≤ kv.2.series) && decide (0 ≤ kv.2.total)) &&
   inp.explore.all fun kv => decide (0 ≤ kv.2.series) && decide (0 ≤ kv.2.total)
 
+/-- no shard reports a negative load (hypothesis of the assigned-too-big theorem) -/
+def rtsOK (inp : Input) : Bool :=
+  inp.probes.all fun p => decide (0 ≤ (effRt p).head) && decide (0 ≤ (effRt p).proc)
+
+/-- the relief orders of a schedule mention every key the shard reports: the schedule stands for the
+    iteration order of the shard's whole scraping map (hypothesis of the assigned-too-big theorem) -/
+def schedCovers (sc : Sched) (inp : Input) : Bool :=
+  inp.probes.zipIdx.all fun (p, i) => (reported p).keys.all fun h =>
+    (orderFor sc.allevProc i).contains h && (orderFor sc.allevHead i).contains h
+
 def clause (inp : Input) (ob : Obs) : String :=
   if !fits inp ob then "fits" else if !noTooBig inp ob then "noTooBig" else
   if !noScaleUpForTooBig inp ob then "noScaleUpForTooBig" else ""
